@@ -100,3 +100,43 @@ func HarnessC15Graph() {
 		}
 	}
 }
+
+var zzMods4 = []string{"a", "x/u", "y/u", "b"}
+
+func zzReach4(adj [4][4]bool, u, v int) bool {
+	r := adj
+	for k := 0; k < 4; k++ {
+		for i := 0; i < 4; i++ {
+			for j := 0; j < 4; j++ {
+				if r[i][k] && r[k][j] {
+					r[i][j] = true
+				}
+			}
+		}
+	}
+	return r[u][v]
+}
+
+// HarnessC15Names: four modules, two of which share their file base name ("x/u", "y/u"): every sequence of exactly 4
+// distinct-endpoint import edges in any arrival order; an edge is refused exactly when it closes a cycle over the
+// accepted edges (module identity is the full import path, not a display name).
+func HarnessC15Names() {
+	ctx := zzNewCtx()
+	var adj [4][4]bool
+	for s := 0; s < 4; s++ {
+		e := verifrt.Choice("edge"+string(rune('0'+s)), 12)
+		u := e / 3
+		v := e % 3
+		if v >= u {
+			v++
+		}
+		err := ctx.AddDependency(zzMods4[u], zzMods4[v])
+		closes := zzReach4(adj, v, u)
+		if closes {
+			verifrt.Assert(err != nil, "an import that closes a cycle was accepted (modules sharing a base name)")
+		} else {
+			verifrt.Assert(err == nil, "an import that keeps the graph acyclic was rejected (modules sharing a base name)")
+			adj[u][v] = true
+		}
+	}
+}
